@@ -1016,7 +1016,7 @@ theorem pre_pre (a b : List Event) (x : Res σ) : pre a (pre b x) = pre (a ++ b)
   | ok v => obtain ⟨s, q, ev⟩ := v; simp [pre, List.append_assoc]
 
 /-- a DATA frame of which the first delivery brought only a part -/
-theorem data_partial_merge (hnb : NonBlocking o) (ht : cfg.k.truncatedNoError = false)
+theorem data_partial_merge (ht : cfg.k.truncatedNoError = false)
     (S : Stream) (q : σ) (r2 c2 : Bytes) (e : Bool) (n m sz : Nat)
     (hft : S.frameType = some 0) (hfs : S.frameSize = some sz) (hlt : r2.length < sz)
     (hsess : S.sessionId = none) (hblk : S.blocked = false) (hre : S.receivingEnded = false)
